@@ -312,6 +312,9 @@ def _contained(m, f, node, classes):
                     inner = [x for st in h.body for x in walk_local(st) if isinstance(x, ast.Try)]
                     if inner and all(any(handler_covers(h2, classes, f.module) and _handler_raises_badvalue(m, f, h2) for h2 in it.handlers) for it in inner):
                         return True
+                raises = [x for st in h.body for x in walk_local(st) if isinstance(x, ast.Raise)]
+                if raises and all(x.exc is None for x in raises):
+                    break           # the same exception goes on to the next enclosing try (helper form of the lazy idiom)
                 return False
     return False
 
@@ -977,6 +980,8 @@ def enum_lookup_does_not_read_text_as_a_number(ctx):
             callee = None
             if isinstance(node, ast.Call) and src(node.func) == 'self._enum' and node.args and p in names_in(node.args[0]):
                 callee = '__call__'
+            elif isinstance(node, ast.Call) and src(node.func) == 'self._enum.get' and node.args and p in names_in(node.args[0]):
+                callee = 'get'
             elif isinstance(node, ast.Subscript) and src(node.value) == 'self._enum' and p in names_in(node.slice):
                 callee = '__getitem__'
             if callee is None:
@@ -1112,6 +1117,38 @@ def _eval_for_nan(test, names):
     return None
 
 
+def _nan_free_names(m, cname, f, p):
+    """locals of validate() that can not hold a NaN: results of `self(<value>)` when the conversion of the class returns an
+    integer on every path (int() of a NaN raises, the integers are totally ordered: either form of the range test is exact);
+    the parameter itself when it is re-bound that way by a top level statement before any test"""
+    conv = m.method(f'{DT}.{cname}', '__call__', inherited=False)
+    rets = [n for n in body_walk(conv.node) if isinstance(n, ast.Return)]
+    rd = ReachingDefs(_CFG(conv.node, m, conv.module), conv.node)
+
+    def is_int(r):
+        e = r.value
+        if isinstance(e, ast.Name):
+            defs = rd.at(r, e.id)
+            return bool(defs) and all(how == 'assign' and isinstance(v, ast.Call) and dotted(v.func) == 'int' for v, st, how in defs)
+        return isinstance(e, ast.Call) and dotted(e.func) == 'int'
+    if not rets or not all(r.value is not None and is_int(r) for r in rets):
+        return set()
+    res = set()
+    for i, st in enumerate(f.node.body):
+        if isinstance(st, ast.If):
+            break
+        if isinstance(st, ast.Assign) and len(st.targets) == 1 and isinstance(st.targets[0], ast.Name) and isinstance(st.value, ast.Call) \
+                and src(st.value.func) == 'self' and len(st.value.args) == 1 and src(st.value.args[0]) == p:
+            res.add(st.targets[0].id)
+    # other bindings of those names spoil the claim
+    for x in body_walk(f.node):
+        if isinstance(x, (ast.Assign, ast.AugAssign)):
+            for t in (x.targets if isinstance(x, ast.Assign) else [x.target]):
+                if isinstance(t, ast.Name) and t.id in res and not (isinstance(x, ast.Assign) and isinstance(x.value, ast.Call) and src(x.value.func) == 'self'):
+                    res.discard(t.id)
+    return res
+
+
 @rule('C01.R9', min_instances=3)
 def range_test_is_nan_safe(ctx):
     """validate() of the numeric types can not return for a NaN: the method is walked with the offered value assumed to be NaN
@@ -1129,6 +1166,8 @@ def range_test_is_nan_safe(ctx):
         names = {p} | {x.targets[0].id for x in body_walk(f.node) if isinstance(x, ast.Assign) and isinstance(x.targets[0], ast.Name)
                        and any(isinstance(y, ast.Name) and y.id == p for y in ast.walk(x.value)) and not isinstance(x.value, ast.BoolOp)
                        and not any(isinstance(y, ast.Compare) for y in ast.walk(x.value))}
+        nan_free = _nan_free_names(m, cname, f, p)
+        names -= nan_free
         seen, stack = set(), [cfg.entry]
         while stack:
             n = stack.pop()
@@ -1136,7 +1175,7 @@ def range_test_is_nan_safe(ctx):
                 continue
             seen.add(n)
             node = cfg.nodes[n]
-            known = _eval_for_nan(node.ast, names) if node.kind == 'test' else None
+            known = _eval_for_nan(node.ast, names) if node.kind == 'test' and names else None
             for b_, lab in cfg.succ[n]:
                 if known is True and lab == 'F':
                     continue
@@ -1144,6 +1183,10 @@ def range_test_is_nan_safe(ctx):
                     continue
                 stack.append(b_)
         for r in rets:
+            if isinstance(r.value, ast.Name) and r.value.id in nan_free:
+                ctx.ok(f'{f.qualname}:value returned only on the accepting branch', r,
+                       f'`{r.value.id}` is the result of a conversion that returns int(...) on every path: it is never a NaN', f)
+                continue
             reached = bool(set(cfg.ids(r)) & seen)
             ctx.check(not reached, f'{f.qualname}:value returned only on the accepting branch', r,
                       'with NaN offered, no path reaches this return',
@@ -1240,6 +1283,22 @@ def nan_is_never_turned_into_a_number(ctx):
 LEN_PROPS = {'StringType': ('minchars', 'maxchars'), 'BLOBType': ('minbytes', 'maxbytes'), 'ArrayOf': ('minlen', 'maxlen')}
 
 
+def _limit_attr(side, f, props):
+    """the `self.<limit>` attribute a comparison operand stands for: the attribute itself, or a local bound once to it /
+    to the attribute with a neutral replacement for a missing limit (`self.minlen or 0`, `X if self.maxlen is None else self.maxlen`)"""
+    e = resolved(side, f.node) if isinstance(side, ast.Name) else side
+    if isinstance(e, ast.BoolOp):
+        cands = e.values
+    elif isinstance(e, ast.IfExp):
+        cands = [e.body, e.orelse]
+    else:
+        cands = [e]
+    hits = [c for c in cands if isinstance(c, ast.Attribute) and dotted(c.value) == 'self' and c.attr in props]
+    if len(hits) == 1 and all(c is hits[0] or isinstance(c, (ast.Constant, ast.Name, ast.Attribute)) for c in cands):
+        return hits[0]
+    return None
+
+
 @rule('C01.R7e', min_instances=6)
 def length_is_measured_on_the_value(ctx):
     """the quantity compared with minchars/maxchars, minbytes/maxbytes, minlen/maxlen is len() of the offered value itself
@@ -1257,10 +1316,11 @@ def length_is_measured_on_the_value(ctx):
                 if not (isinstance(n, ast.Compare) and len(n.ops) == 1 and isinstance(n.ops[0], (ast.Lt, ast.LtE, ast.Gt, ast.GtE))):
                     continue
                 sides = [n.left, n.comparators[0]]
-                lim = [s for s in sides if isinstance(s, ast.Attribute) and dotted(s.value) == 'self' and s.attr in props]
+                lim = [(s, a) for s in sides for a in [_limit_attr(s, f, props)] if a is not None]
                 if len(lim) != 1:
                     continue
-                other = sides[1] if lim[0] is sides[0] else sides[0]
+                other = sides[1] if lim[0][0] is sides[0] else sides[0]
+                lim = [lim[0][1]]
                 ctx.analysed(f)
                 for e in (origins(other, f.node) if isinstance(other, ast.Name) else [other]):
                     key = f'{f.qualname}:{lim[0].attr} compared with the length of the value'
@@ -1442,7 +1502,7 @@ def structural_refusals(ctx):
             for atom, tv in facts_on_side(t.ast, truth):
                 exprs = [o for o in origins(atom, f.node)] if isinstance(atom, ast.Name) else [atom]
                 for e in exprs:
-                    for l, op, r in compare_ops(e):
+                    for l, op, r in compare_ops(resolved(e, f.node)):
                         if op in ('==', '!=') and {l, r} == want and (op == '==') != tv:
                             # on this side the lengths differ
                             found = True
